@@ -31,13 +31,14 @@ struct Options {
   bool recordTrace = true;      // keep the event log
   bool traceAll = false;        // log events on unnamed addresses too
   uint64_t backstopNs = 50000000ull; // a timed wait at least this long counts as a backstop
+  int spuriousPerMille = 0;     // per scheduling decision: chance that a futex waiter returns EINTR (signal)
   std::vector<int> prefix;      // DFS / replay: forced choices
 };
 
 enum Kind : uint8_t {
   K_LOAD, K_STORE, K_XCHG, K_FADD, K_FSUB, K_FAND, K_FOR, K_FXOR, K_CAS_OK, K_CAS_FAIL, K_FENCE,
   K_FUTEX_WAIT, K_FUTEX_WAIT_RET, K_FUTEX_WAKE, K_NOTE, K_THREAD_START, K_THREAD_END, K_YIELD,
-  K_TIMEOUT
+  K_TIMEOUT, K_PLOAD, K_PSTORE
 };
 
 struct Event {
@@ -79,6 +80,9 @@ void setStuckHandler(std::function<void(const RunInfo&)> h);
 
 void note(const char* fmt, ...);                               // harness marker into the trace
 void nameRegion(const void* addr, size_t bytes, const char* name);
+// a region of plain (non-atomic) elements of `elemSize` bytes: every plain read/write of an element is a
+// scheduling point and is logged (once per element per run of accesses) as pload/pstore name+elemOffset
+void namePlainRegion(const void* addr, size_t bytes, size_t elemSize, const char* name);
 void clearNames();
 const std::vector<Event>& trace();
 std::string fmt(const Event& e);                               // "tid kind name+off mo operand result aux"
